@@ -20,6 +20,10 @@ DescendingEps(s, eps) == \A i \in 1..(Len(s) - 1) : s[i][2] + eps >= s[i + 1][2]
 
 RECURSIVE SumSnd(_)
 SumSnd(S) == IF S = {} THEN 0 ELSE LET x == CHOOSE y \in S : TRUE IN x[2] + SumSnd(S \ {x})   \* sum of second components
+\* Evaluate a predicate as an expression.  Inside an action TLC enumerates every witness of an existential as a separate
+\* (identical) successor; comparing with TRUE makes it stop at the first witness.
+Holds(P) == (P = TRUE)
+
 SetMax(S) == CHOOSE m \in S : \A x \in S : x <= m
 SetMin(S) == CHOOSE m \in S : \A x \in S : x >= m
 =============================================================================
